@@ -197,7 +197,9 @@ def wl_snapshots(ctx, rng, case):
                     buf[:] = key
                     arg = buf if rng.random() < 0.7 else memoryview(buf)
                 with linehook.on_every_line(snap):
-                    f.add(arg) if rng.random() < 0.8 else f.add_alt(f.hashes(arg))
+                    # (a fifth of the additions go through add_alt, half of those with a list computed for a DEEPER filter: only the first
+                    # number_hashes values count)
+                    f.add(arg) if rng.random() < 0.8 else f.add_alt(f.hashes(arg, k + rng.choice([0, 0, 2, 5])))
                 orc.complete(key)
                 added.append(key)
                 snap.inflight = None
